@@ -57,7 +57,7 @@ def main():
             continue
         sh(["git", "apply", patch], "/repo")
         # one parallel build of every monitor from the patched tree (the per-check builds are then no-ops)
-        brc, bout = (0, "") if only else sh(["cargo", "build", "--release", "--offline", "--quiet", "--bins"], "/verif/harness")
+        brc, bout = (0, "") if (only or own_only) else sh(["cargo", "build", "--release", "--offline", "--quiet", "--bins"], "/verif/harness")
         results = {}
         alarms = []
         try:
@@ -71,7 +71,7 @@ def main():
                         alarms.append({"check": pid, "seed": seed, "exit": rc, "lines": lines})
         finally:
             sh(["git", "checkout", "--", "."], "/repo")
-        if only:
+        if only or own_only:
             # partial re-run (after a monitor was extended): merge into the recorded trial
             prev = meta.get("silence_trial", {})
             meta["silence_trial"] = {"checks_run": sorted(set(prev.get("checks_run", [])) | set(results)),
